@@ -13,6 +13,19 @@ normalised expression text (never by line), so reformatting does not disturb the
 This module is imported by `Props.C04/C05/C12` only — not by the driver — so that the
 correspondence check still runs (and finds a failing input) when a table changes.
 
+Normal form of the tables (extract/fnorm.go): NO entry depends on how a local variable of the Go
+function is spelled.  A local defined once by a pure expression is inlined (`cmd.Task` prints as
+`t.Cmds[i].Task`, `!skipFingerprinting` as `!(e.ForceAll || (!call.Indirect && e.Force))`); a callee
+whose receiver is a local is printed by the local's ORIGIN (`(fingerprint.NewSourcesChecker).OnError`
+= method `OnError` of the value returned by that call, `(func·0)` = the first function literal of
+the body, i.e. the closure `touchMarker`, `(&CheckerConfig{}).statusChecker.IsUpToDate`,
+`(xxh3.New).Sum128`); every other local is a placeholder ‹k›, numbered per function by first
+appearance.  Error plumbing (hidden guards, `swallowedErrReturns`) and the verdict variables whose
+definitions are the `def …` rows are selected by data flow, not by name.  Receivers, parameters
+(`t`, `e`, `checker` in the checkers' methods), fields, callees and package-level names are kept.
+`selftest/harmless-H2.patch` and `harmless-H3.patch` (renames of locals, closures included) leave
+both tables byte-identical.
+
 How the model reads the tables:
 * `calls`: the dry bit of every checker construction.  `RunTask`, `Status`, `statusOnError`
   pass `e.Dry`, which `flags` sets to `Dry || Status`: modes `run`/`force` ⇒ `dry = false`,
@@ -59,14 +72,14 @@ theorem dryWiring_calls_ok : DryWiring.calls = [("Executor.RunTask:fingerprint.W
   ("Executor.compiledTask:fingerprint.NewChecksumChecker", "e.Dry"),
   ("Executor.compiledTask:fingerprint.NewTimestampChecker", "e.Dry"),
   ("Executor.statusOnError:fingerprint.NewSourcesChecker", "e.Dry"),
-  ("IsTaskUpToDate:NewSourcesChecker", "config.dry"),
+  ("IsTaskUpToDate:NewSourcesChecker", "‹0›.dry"),
   ("NewSourcesChecker:NewChecksumChecker", "dry"),
   ("NewSourcesChecker:NewTimestampChecker", "dry"),
   ("flagsOption.ApplyToExecutor:task.WithDry", "Dry || Status")] := by rfl
 
 theorem dryWiring_fields_ok : DryWiring.fields = [("NewChecksumChecker.dry", "dry"),
   ("NewTimestampChecker.dry", "dry"),
-  ("WithDry", "config.dry = dry"),
+  ("WithDry", "‹0›.dry = dry"),
   ("task.WithDry:return", "&dryOption{dry}"),
   ("task.WithDry", "e.Dry = o.dry")] := by rfl
 
@@ -76,7 +89,7 @@ def fingerGuardKeys : List String :=
   ["Executor.RunTask:fingerprint.IsTaskUpToDate", "Executor.RunTask:e.Logger.Prompt", "Executor.RunTask:e.mkdir",
    "Executor.RunTask:e.runCommand", "Executor.RunTask:e.statusOnError", "Executor.RunTask:e.areTaskPreconditionsMet",
    "Executor.runCommand:e.RunTask", "Executor.runCommand:execext.RunCommand",
-   "Executor.Status:fingerprint.IsTaskUpToDate", "Executor.statusOnError:checker.OnError",
+   "Executor.Status:fingerprint.IsTaskUpToDate", "Executor.statusOnError:(fingerprint.NewSourcesChecker).OnError",
    "Executor.ToEditorOutput:fingerprint.IsTaskUpToDate", "Executor.ListTasks:e.ToEditorOutput",
    "Executor.Run:summary.PrintTask", "Executor.Run:e.splitRegularAndWatchCalls"]
 
@@ -84,16 +97,16 @@ set_option maxRecDepth 4096 in
 theorem dryWiring_guards_ok :
     DryWiring.guards.filter (fun g => fingerGuardKeys.contains g.1) =
       [("Executor.RunTask:e.areTaskPreconditionsMet", ""),
-       ("Executor.RunTask:fingerprint.IsTaskUpToDate", "!skipFingerprinting"),
-       ("Executor.RunTask:e.Logger.Prompt", "range t.Prompt && p != \"\" && !e.Dry"),
-       ("Executor.RunTask:e.statusOnError", "range t.Prompt && p != \"\" && !e.Dry"),
+       ("Executor.RunTask:fingerprint.IsTaskUpToDate", "!(e.ForceAll || (!call.Indirect && e.Force))"),
+       ("Executor.RunTask:e.Logger.Prompt", "range ‹0›.Prompt && ‹1› != \"\" && !e.Dry"),
+       ("Executor.RunTask:e.statusOnError", "range ‹0›.Prompt && ‹1› != \"\" && !e.Dry"),
        ("Executor.RunTask:e.mkdir", "!e.Dry"),
-       ("Executor.RunTask:e.runCommand", "range t.Cmds && !(t.Cmds[i].Defer)"),
-       ("Executor.RunTask:e.statusOnError", "range t.Cmds && !(t.Cmds[i].Defer)"),
-       ("Executor.runCommand:e.RunTask", "case cmd.Task != \"\""),
-       ("Executor.runCommand:execext.RunCommand", "case cmd.Cmd != \"\" && !(!shouldRunOnCurrentPlatform(cmd.Platforms)) && !(e.Dry)"),
+       ("Executor.RunTask:e.runCommand", "range ‹0›.Cmds && !(‹0›.Cmds[‹2›].Defer)"),
+       ("Executor.RunTask:e.statusOnError", "range ‹0›.Cmds && !(‹0›.Cmds[‹2›].Defer)"),
+       ("Executor.runCommand:e.RunTask", "case t.Cmds[i].Task != \"\""),
+       ("Executor.runCommand:execext.RunCommand", "case t.Cmds[i].Cmd != \"\" && !(!shouldRunOnCurrentPlatform(t.Cmds[i].Platforms)) && !(e.Dry)"),
        ("Executor.Status:fingerprint.IsTaskUpToDate", "range calls"),
-       ("Executor.statusOnError:checker.OnError", "!(e.Dry)"),
+       ("Executor.statusOnError:(fingerprint.NewSourcesChecker).OnError", "!(e.Dry)"),
        ("Executor.ToEditorOutput:fingerprint.IsTaskUpToDate", "!(noStatus)"),
        ("Executor.ListTasks:e.ToEditorOutput", "o.FormatTaskListAsJSON"),
        ("Executor.Run:summary.PrintTask", "e.Summary && range calls"),
@@ -101,18 +114,21 @@ theorem dryWiring_guards_ok :
 
 theorem dryWiring_skipFingerprinting_ok : DryWiring.skipFingerprinting = "(!call.Indirect && e.Force) || e.ForceAll" := by rfl
 
-theorem dryWiring_upToDateReturn_ok : DryWiring.upToDateReturn = "<preconditions> && upToDate" := by rfl
+theorem dryWiring_upToDateReturn_ok : DryWiring.upToDateReturn = "<e.areTaskPreconditionsMet> && <fingerprint.IsTaskUpToDate>" := by rfl
 
 theorem fingerOrder_checksumIsUpToDate_ok : FingerOrder.checksumIsUpToDate = [("return false, nil", "len(t.Sources) == 0"),
   ("checker.checksumFilePath", "!(len(t.Sources) == 0)"),
   ("os.ReadFile", "!(len(t.Sources) == 0)"),
   ("strings.TrimSpace", "!(len(t.Sources) == 0)"),
+  ("def ‹0› := strings.TrimSpace(string(‹1›))", "!(len(t.Sources) == 0)"),
   ("checker.checksum", "!(len(t.Sources) == 0)"),
-  ("os.MkdirAll", "!(len(t.Sources) == 0) && !checker.dry && oldHash != newHash"),
-  ("os.WriteFile", "!(len(t.Sources) == 0) && !checker.dry && oldHash != newHash"),
-  ("glob", "!(len(t.Sources) == 0) && len(t.Generates) > 0 && range t.Generates && !(g.Negate)"),
-  ("return false, nil", "!(len(t.Sources) == 0) && len(t.Generates) > 0 && range t.Generates && !(g.Negate) && len(generates) == 0"),
-  ("return oldHash == newHash, nil", "!(len(t.Sources) == 0)")] := by rfl
+  ("def ‹2›, ‹3› := checker.checksum(t)", "!(len(t.Sources) == 0)"),
+  ("os.MkdirAll", "!(len(t.Sources) == 0) && !checker.dry && ‹0› != ‹2›"),
+  ("os.WriteFile", "!(len(t.Sources) == 0) && !checker.dry && ‹0› != ‹2›"),
+  ("glob", "!(len(t.Sources) == 0) && len(t.Generates) > 0 && range t.Generates && !(‹4›.Negate)"),
+  ("def ‹5›, ‹6› := glob(t.Dir, ‹4›.Glob)", "!(len(t.Sources) == 0) && !(‹3› != nil) && len(t.Generates) > 0 && range t.Generates && !(‹4›.Negate)"),
+  ("return false, nil", "!(len(t.Sources) == 0) && len(t.Generates) > 0 && range t.Generates && !(‹4›.Negate) && len(‹5›) == 0"),
+  ("return ‹0› == ‹2›, nil", "!(len(t.Sources) == 0)")] := by rfl
 
 theorem fingerOrder_checksumOnError_ok : FingerOrder.checksumOnError = [("return nil", "len(t.Sources) == 0"),
   ("os.Remove", "!(len(t.Sources) == 0)"),
@@ -120,22 +136,25 @@ theorem fingerOrder_checksumOnError_ok : FingerOrder.checksumOnError = [("return
   ("return os.Remove(checker.checksumFilePath(t))", "!(len(t.Sources) == 0)")] := by rfl
 
 theorem fingerOrder_checksumSum_ok : FingerOrder.checksumSum = [("Globs", ""),
+  ("def ‹0›, ‹1› := Globs(t.Dir, t.Sources)", ""),
   ("xxh3.New", ""),
-  ("filepath.Rel", "range sources"),
-  ("io.CopyBuffer", "range sources"),
-  ("filepath.ToSlash", "range sources"),
-  ("os.Open", "range sources"),
-  ("io.CopyBuffer", "range sources"),
-  ("h.Sum128", ""),
+  ("def ‹2› := xxh3.New()", "!(‹1› != nil)"),
+  ("filepath.Rel", "range ‹0›"),
+  ("io.CopyBuffer", "range ‹0›"),
+  ("filepath.ToSlash", "range ‹0›"),
+  ("os.Open", "range ‹0›"),
+  ("io.CopyBuffer", "range ‹0›"),
+  ("(xxh3.New).Sum128", ""),
+  ("def ‹3› := (xxh3.New).Sum128()", "!(‹1› != nil)"),
   ("fmt.Sprintf", ""),
-  ("return fmt.Sprintf(\"%x%x\", hash.Hi, hash.Lo), nil", "")] := by rfl
+  ("return fmt.Sprintf(\"%x%x\", ‹3›.Hi, ‹3›.Lo), nil", "")] := by rfl
 
 /-- what is written into the hash before a file's content: `nameOf` = the slash path relative to
 `t.Dir` (the absolute path itself if `filepath.Rel` fails, which it cannot for a match below
-`t.Dir`) -/
+`t.Dir`).  One fact with shared placeholders: ‹0› the name, ‹2› the source file of the loop -/
 theorem fingerOrder_checksumName_ok :
-    FingerOrder.checksumNameRel = "t.Dir, f" ∧ FingerOrder.checksumNameFallback = "name = f" ∧
-    FingerOrder.checksumNameHashed = "strings.NewReader(filepath.ToSlash(name))" := by decide
+    FingerOrder.checksumName = ["rel: ‹0›, ‹1› := filepath.Rel(t.Dir, ‹2›)", "fallback: ‹0› = ‹2›",
+      "hashed: strings.NewReader(filepath.ToSlash(‹0›))"] := by decide
 
 theorem fingerOrder_checksumPath_ok : FingerOrder.checksumPath = [("filepath.Join", ""),
   ("stateFilename", ""),
@@ -145,29 +164,31 @@ theorem fingerOrder_checksumPath_ok : FingerOrder.checksumPath = [("filepath.Joi
 theorem fingerOrder_timestampIsUpToDate_ok : FingerOrder.timestampIsUpToDate = [("return false, nil", "len(t.Sources) == 0"),
   ("Globs", "!(len(t.Sources) == 0)"),
   ("Globs", "!(len(t.Sources) == 0)"),
-  ("def generatesExist := true", "!(len(t.Sources) == 0) && !(err != nil) && !(err != nil)"),
-  ("glob", "!(len(t.Sources) == 0) && range t.Generates && !(g.Negate)"),
-  ("def generatesExist = false", "!(len(t.Sources) == 0) && !(err != nil) && !(err != nil) && range t.Generates && !(g.Negate) && err != nil || len(files) == 0"),
+  ("def ‹0› := true", "!(len(t.Sources) == 0) && !(‹1› != nil) && !(‹1› != nil)"),
+  ("glob", "!(len(t.Sources) == 0) && range t.Generates && !(‹2›.Negate)"),
+  ("def ‹0› = false", "!(len(t.Sources) == 0) && !(‹1› != nil) && !(‹1› != nil) && range t.Generates && !(‹2›.Negate) && ‹3› != nil || len(‹4›) == 0"),
   ("checker.timestampFilePath", "!(len(t.Sources) == 0)"),
+  ("def ‹5› := checker.timestampFilePath(t)", "!(len(t.Sources) == 0) && !(‹1› != nil) && !(‹1› != nil)"),
   ("os.Stat", "!(len(t.Sources) == 0)"),
-  ("def markerExists := err == nil", "!(len(t.Sources) == 0) && !(err != nil) && !(err != nil)"),
-  ("append", "!(len(t.Sources) == 0) && markerExists"),
-  ("assign generates = append(generates, timestampFile)", "!(len(t.Sources) == 0) && markerExists"),
+  ("def ‹6› := ‹1› == nil", "!(len(t.Sources) == 0) && !(‹1› != nil) && !(‹1› != nil)"),
+  ("append", "!(len(t.Sources) == 0) && ‹6›"),
+  ("assign ‹7› = append(‹7›, ‹5›)", "!(len(t.Sources) == 0) && ‹6›"),
   ("func", "!(len(t.Sources) == 0)"),
   ("return nil", "checker.dry"),
-  ("os.MkdirAll", "!(checker.dry) && !markerExists"),
-  ("os.Create", "!(checker.dry) && !markerExists"),
+  ("os.MkdirAll", "!(checker.dry) && !‹6›"),
+  ("os.Create", "!(checker.dry) && !‹6›"),
   ("time.Now", "!(checker.dry)"),
+  ("def ‹8› := time.Now()", "!(checker.dry)"),
   ("os.Chtimes", "!(checker.dry)"),
-  ("return os.Chtimes(timestampFile, now, now)", "!(checker.dry)"),
+  ("return os.Chtimes(‹5›, ‹8›, ‹8›)", "!(checker.dry)"),
   ("getMaxTime", "!(len(t.Sources) == 0)"),
-  ("touchMarker", "!(len(t.Sources) == 0)"),
+  ("(func·0)", "!(len(t.Sources) == 0)"),
   ("anyFileNewerThan", "!(len(t.Sources) == 0)"),
-  ("def shouldUpdate, err := anyFileNewerThan(sources, generateMaxTime)", "!(len(t.Sources) == 0) && !(err != nil) && !(err != nil) && !(err != nil || generateMaxTime.IsZero())"),
-  ("touchMarker", "!(len(t.Sources) == 0)"),
-  ("def upToDate := !shouldUpdate && generatesExist", "!(len(t.Sources) == 0) && !(err != nil) && !(err != nil) && !(err != nil || generateMaxTime.IsZero()) && !(err != nil)"),
-  ("touchMarker", "!(len(t.Sources) == 0) && !upToDate"),
-  ("return upToDate, nil", "!(len(t.Sources) == 0)")] := by rfl
+  ("def ‹9›, ‹1› := anyFileNewerThan(‹10›, ‹11›)", "!(len(t.Sources) == 0) && !(‹1› != nil) && !(‹1› != nil) && !(‹1› != nil || (getMaxTime).IsZero())"),
+  ("(func·0)", "!(len(t.Sources) == 0)"),
+  ("def ‹12› := !‹9› && ‹0›", "!(len(t.Sources) == 0) && !(‹1› != nil) && !(‹1› != nil) && !(‹1› != nil || (getMaxTime).IsZero()) && !(‹1› != nil)"),
+  ("(func·0)", "!(len(t.Sources) == 0) && !‹12›"),
+  ("return ‹12›, nil", "!(len(t.Sources) == 0)")] := by rfl
 
 theorem fingerOrder_timestampOnError_ok : FingerOrder.timestampOnError = [("return nil", "len(t.Sources) == 0"),
   ("os.Remove", "!(len(t.Sources) == 0)"),
@@ -182,47 +203,58 @@ theorem fingerOrder_timestampPath_ok : FingerOrder.timestampPath = [("filepath.J
 the normalised name, `-`, and 16 hex digits of xxh3 of the ORIGINAL name (`stateKey`; the model's
 tag is the name itself: the 64-bit hash is idealised as injective) -/
 theorem fingerOrder_stateFilename_ok : FingerOrder.stateFilename = [("normalizeFilename", ""),
-  ("def normalized := normalizeFilename(name)", ""),
-  ("return normalized", "normalized == name"),
-  ("fmt.Sprintf", "!(normalized == name)"),
-  ("xxh3.HashString", "!(normalized == name)"),
-  ("return fmt.Sprintf(\"%s-%016x\", normalized, xxh3.HashString(name))", "!(normalized == name)")] := by rfl
+  ("def ‹0› := normalizeFilename(name)", ""),
+  ("return ‹0›", "‹0› == name"),
+  ("fmt.Sprintf", "!(‹0› == name)"),
+  ("xxh3.HashString", "!(‹0› == name)"),
+  ("return fmt.Sprintf(\"%s-%016x\", ‹0›, xxh3.HashString(name))", "!(‹0› == name)")] := by rfl
 
-theorem fingerOrder_isTaskUpToDate_ok : FingerOrder.isTaskUpToDate = [("NewStatusChecker", "config.statusChecker == nil"),
-  ("NewSourcesChecker", "config.sourcesChecker == nil"),
-  ("config.statusChecker.IsUpToDate", "statusIsSet"),
-  ("config.sourcesChecker.IsUpToDate", "sourcesIsSet"),
-  ("return statusUpToDate && sourcesUpToDate, nil", "statusIsSet && sourcesIsSet"),
-  ("return statusUpToDate, nil", "!(statusIsSet && sourcesIsSet) && statusIsSet"),
-  ("return sourcesUpToDate, nil", "!(statusIsSet && sourcesIsSet) && !(statusIsSet) && sourcesIsSet"),
-  ("return false, nil", "!(statusIsSet && sourcesIsSet) && !(statusIsSet) && !(sourcesIsSet)")] := by rfl
+theorem fingerOrder_isTaskUpToDate_ok : FingerOrder.isTaskUpToDate = [("def ‹0› := &CheckerConfig{method: \"none\", tempDir: \"\", dry: false, logger: nil, statusChecker: nil, sourcesChecker: nil}", ""),
+  ("NewStatusChecker", "‹0›.statusChecker == nil"),
+  ("NewSourcesChecker", "‹0›.sourcesChecker == nil"),
+  ("def ‹1› := len(t.Status) != 0", ""),
+  ("def ‹2› := len(t.Sources) != 0", ""),
+  ("(&CheckerConfig{}).statusChecker.IsUpToDate", "‹1›"),
+  ("def ‹3›, ‹4› = (&CheckerConfig{}).statusChecker.IsUpToDate(ctx, t)", "‹1›"),
+  ("(&CheckerConfig{}).sourcesChecker.IsUpToDate", "‹2›"),
+  ("def ‹5›, ‹4› = (&CheckerConfig{}).sourcesChecker.IsUpToDate(t)", "‹2›"),
+  ("return ‹3› && ‹5›, nil", "‹1› && ‹2›"),
+  ("return ‹3›, nil", "!(‹1› && ‹2›) && ‹1›"),
+  ("return ‹5›, nil", "!(‹1› && ‹2›) && !(‹1›) && ‹2›"),
+  ("return false, nil", "!(‹1› && ‹2›) && !(‹1›) && !(‹2›)")] := by rfl
 
-theorem fingerOrder_globs_ok : FingerOrder.globs = [("glob", "range globs"),
-  ("assign resultMap[match] = !g.Negate", "range globs && range matches"),
+theorem fingerOrder_globs_ok : FingerOrder.globs = [("def ‹0› := make(map[string]bool)", ""),
+  ("glob", "range globs"),
+  ("def ‹1›, ‹2› := glob(dir, ‹3›.Glob)", "range globs"),
+  ("assign ‹0›[‹4›] = !‹3›.Negate", "range globs && range ‹1›"),
   ("collectKeys", ""),
-  ("return collectKeys(resultMap), nil", "")] := by rfl
+  ("return collectKeys(‹0›), nil", "")] := by rfl
 
 theorem fingerOrder_glob_ok : FingerOrder.glob = [("execext.ExpandFields", ""),
-  ("os.Stat", "range fs"),
-  ("assign results[f] = true", "range fs && !(info.IsDir())"),
+  ("def ‹0›, ‹1› := execext.ExpandFields(g)", ""),
+  ("def ‹2› := make(map[string]bool, len(‹0›))", "!(‹1› != nil)"),
+  ("os.Stat", "range ‹0›"),
+  ("def ‹3›, ‹4› := os.Stat(‹5›)", "!(‹1› != nil) && range ‹0›"),
+  ("assign ‹2›[‹5›] = true", "range ‹0› && !((os.Stat).IsDir())"),
   ("collectKeys", ""),
-  ("return collectKeys(results), nil", "")] := by rfl
+  ("return collectKeys(‹2›), nil", "")] := by rfl
 
-theorem fingerOrder_collectKeys_ok : FingerOrder.collectKeys = [("append", "range m && v"),
-  ("assign keys = append(keys, k)", "range m && v"),
+theorem fingerOrder_collectKeys_ok : FingerOrder.collectKeys = [("def ‹0› := make([]string, 0, len(m))", ""),
+  ("append", "range m && ‹1›"),
+  ("assign ‹0› = append(‹0›, ‹2›)", "range m && ‹1›"),
   ("sort.Strings", ""),
-  ("return keys", "")] := by rfl
+  ("return ‹0›", "")] := by rfl
 
 theorem fingerOrder_statusIsUpToDate_ok : FingerOrder.statusIsUpToDate = [("execext.RunCommand", "range t.Status"),
   ("return true, nil", "")] := by rfl
 
-theorem fingerOrder_swallowedErrReturns_ok : FingerOrder.swallowedErrReturns = [("ChecksumChecker.IsUpToDate", "return false, nil | err != nil | checker.checksum"),
-  ("ChecksumChecker.IsUpToDate", "return false, nil | os.IsNotExist(err) | glob"),
-  ("TimestampChecker.IsUpToDate", "return false, nil | err != nil | Globs"),
-  ("TimestampChecker.IsUpToDate", "return false, nil | err != nil | Globs"),
-  ("TimestampChecker.IsUpToDate", "return false, touchMarker() | err != nil || generateMaxTime.IsZero() | getMaxTime"),
-  ("TimestampChecker.IsUpToDate", "return false, touchMarker() | err != nil | anyFileNewerThan"),
-  ("StatusChecker.IsUpToDate", "return false, nil | err != nil | execext.RunCommand")] := by rfl
+theorem fingerOrder_swallowedErrReturns_ok : FingerOrder.swallowedErrReturns = [("ChecksumChecker.IsUpToDate", "return false, nil | ‹3› != nil | checker.checksum"),
+  ("ChecksumChecker.IsUpToDate", "return false, nil | os.IsNotExist(‹6›) | glob"),
+  ("TimestampChecker.IsUpToDate", "return false, nil | ‹1› != nil | Globs"),
+  ("TimestampChecker.IsUpToDate", "return false, nil | ‹1› != nil | Globs"),
+  ("TimestampChecker.IsUpToDate", "return false, (func·0)() | ‹1› != nil || (getMaxTime).IsZero() | getMaxTime"),
+  ("TimestampChecker.IsUpToDate", "return false, (func·0)() | ‹1› != nil | anyFileNewerThan"),
+  ("StatusChecker.IsUpToDate", "return false, nil | ‹0› != nil | execext.RunCommand")] := by rfl
 
 theorem fingerOrder_checksumRegexp_ok : FingerOrder.checksumRegexp = "[^A-z0-9]" := by rfl
 
